@@ -30,6 +30,8 @@ checks = {
  "C13": ("G", "exploration", "A real BitcoinNode (full / verify-only, with / without transaction manager) runs on its own goroutines inside a synctest bubble over a simulated connection; a scripted peer sends tape-chosen well-formed messages at every stage before verification (before version, between version and verack, verack first, no verack, after handshake) in tape-chosen fragments and delays, then one of 7 verification replies; recording wrappers around the real header repository, peer book and tx processor read Verified() at call time. 1 run in 5 puts 1-3 unverified nodes under a real NodeManager (verif hook) and requests headers, txs and a block. Tens of thousands of runs per second; sampling, not proof.", NOTE_G, G),
  "C14": ("G", "exploration", "A verified real node (tx manager present/absent, block requested/not) receives 1-12 tape-generated well-formed messages over the whole command set (handled/unhandled, classic/extended tx, block and unknown, empty and full lists, requested/unrequested blocks, payloads to 70 kB quick / 4 MB thorough) fragmented and delayed by the tape, then a ping with a fresh nonce: pong within 10 simulated minutes, or after a may-disconnect message pong or orderly close, never payload parsed as a header.", NOTE_G, G),
  "C15": ("G", "exploration", "A real node before handshake / during verification / ready receives 1-4 tape-generated hostile byte strings (noise, corrupt checksum/length/count/varint, truncation, extended lengths 2^48..2^64-1, every class of bits, hostile tx encodings, flipped bytes), then the peer closes. The run executes in a worker process whose death is attributed to the run it announced, re-run alone, minimised at message level and replayed from the recorded bytes. Run must return within 5 simulated minutes, the header repository must be intact and a second well-behaved connection must verify and answer a ping. Production repository configuration.", NOTE_G + " Declared lengths are either small or >= 2^48 so the outcome never depends on this machine's memory. Three allocation sites inside the dependency pkg/wire are known findings (KF19-KF21) and are excluded from generation; their witnesses run on every check.", G + "; process-level crash observation with per-run attribution"),
+ "C04": ("G", "exploration", "A real BlockDownloader (Run and HandleBlock on their own goroutines in a synctest bubble) receives blocks of 1-125 (thorough: to 3200) transactions with a tape-chosen relevant subset and one corruption (dropped/added/duplicated-last/swapped/altered tx, announced count +-1, stream cut at k, different header or requested hash, processor/store error at call k) and optionally Cancel, Stop or interrupt at a tape-chosen step of the hand-over. Recorded calls are checked against a reference: confirmations only if header hash, count and an independently computed merkle root all match; coinbase first, exactly the relevant txids once each in block order, every proof verifies and equals the reference merkle path, block txids recorded last; Run nil iff all of it happened.", NOTE_G, G),
+ "C16": ("G", "exploration", "A real BlockManager.Run with real BlockDownloaders serves 1-3 queued requests from simulated sources. At every quiescent point the tape picks one action at call granularity: a source starts its handler, hands over the next transaction, ends or cuts the stream, drops before/after start, serves a wrong block; the requester aborts (optionally in the same instant as shutdown); shutdown; or the clock advances through the start/download/cancel-poll/request-delay timers. Then a fault-free epilogue. Checked: exactly one terminal signal per request, complete only after a successful download of that hash, concurrent downloads bounded, registry empties, Run returns, and at the end of the bubble no goroutine of the system is left blocked.", NOTE_G + " A select with several ready cases is resolved by the Go runtime, not by the tape; failures are confirmed 3/3 in fresh processes before they are reported.", G + "; end-of-bubble blocked-goroutine detection"),
 }
 NA = {}
 ALL = ["C%02d" % i for i in range(1, 21)]
